@@ -72,8 +72,12 @@ def job_fn(job):
             elif kind == "matrix":
                 res.append(("g", fmt_mat(q.get_matrix())))
             else:
-                F = {"svg-fragment": S.SvgFragmentImage, "svg": S.SvgImage, "svg-path": S.SvgPathImage, "png": PyPNGImage}[kind]
-                im = q.make_image(image_factory=F)
+                base_kind, _, alias = kind.partition(":")
+                F = {"svg-fragment": S.SvgFragmentImage, "svg": S.SvgImage, "svg-path": S.SvgPathImage, "png": PyPNGImage}[base_kind]
+                kw = dict(module_drawer=alias) if alias else {}
+                if alias:
+                    q.box_size = 5 + (v % 3) * 3        # different box sizes per job: drawer state shared across images would show
+                im = q.make_image(image_factory=F, **kw)
                 buf = io.BytesIO(); im.save(buf)
                 extra = im.to_string() if hasattr(im, "to_string") else b""
                 res.append((kind, fmt_mat(q.modules), buf.getvalue(), extra))
@@ -84,7 +88,7 @@ def job_fn(job):
 def gen_job(rnd, nsteps):
     job = []
     for _ in range(nsteps):
-        kind = rnd.choice(["compile", "compile", "matrix", "svg-fragment", "svg", "svg-path", "png"])
+        kind = rnd.choice(["compile", "compile", "matrix", "svg-fragment", "svg", "svg-path", "png", "svg:circle", "svg-path:gapped-square", "svg:gapped-circle"])
         v = rnd.choice([1, 1, 2, 3, 7])
         mask = rnd.choice([None, 0, 3, 5]) if v <= 3 else rnd.choice([1, 6])
         job.append((kind, v, mask, gens.payload(rnd, rnd.choice(["lower", "digits"]), rnd.randrange(1, 9))))
@@ -115,7 +119,7 @@ def run(ctx):
     # ---- scheduled runs
     cases = []
     # exhaustive interleavings of two one-step jobs (the yield-point count is small)
-    for kinds in [("compile", "compile"), ("compile", "svg-fragment"), ("svg-fragment", "svg"), ("svg", "svg-path"), ("matrix", "compile")]:
+    for kinds in [("compile", "compile"), ("compile", "svg-fragment"), ("svg-fragment", "svg"), ("svg", "svg-path"), ("matrix", "compile"), ("svg:circle", "svg:circle")]:
         for vs in [(1, 1), (1, 2), (7, 7)]:
             ja = [(kinds[0], vs[0], 0, b"thread-A")]; jb = [(kinds[1], vs[1], 3, b"thread-B")]
             cases.append(("exh", [ja, jb], None, ()))
